@@ -375,6 +375,57 @@ func (n *noSaleRule) OnInstr(x *Explorer, fr *Frame, in ssa.Instruction, st uint
 	return st
 }
 
+// zeroQtyRule: a world in which every quantity is zero (no bid converts to a positive number of coins).
+type zeroQtyRule struct {
+	BaseRule
+}
+
+func (z *zeroQtyRule) CallResult(x *Explorer, fr *Frame, c ssa.CallInstruction) ([]AV, CallMode) {
+	cc := c.Common()
+	isZero := func(v ssa.Value) bool {
+		t := uncell(x.TM.Of(fr, v))
+		return t.Op == "call" && (strings.HasSuffix(t.Name, mathPath+".ZeroInt") || (strings.HasSuffix(t.Name, mathPath+".NewInt") && len(t.Args) == 1 && t.Args[0].Op == "const" && t.Args[0].Name == "0"))
+	}
+	switch callKey(cc) {
+	case mathPath + ".Int.IsPositive", mathPath + ".Int.IsNegative":
+		return []AV{False}, CallReplace
+	case mathPath + ".Int.IsZero":
+		return []AV{True}, CallReplace
+	case mathPath + ".Int.GT", mathPath + ".Int.LT":
+		if len(cc.Args) == 2 && (isZero(cc.Args[0]) || isZero(cc.Args[1])) {
+			return []AV{False}, CallReplace // a zero quantity is neither above nor below zero
+		}
+	case mathPath + ".Int.GTE", mathPath + ".Int.LTE", mathPath + ".Int.Equal":
+		if len(cc.Args) == 2 && (isZero(cc.Args[0]) || isZero(cc.Args[1])) {
+			return []AV{True}, CallReplace
+		}
+	}
+	return nil, CallDefault
+}
+
+// checkMatcherFlag: the matcher's own "matched" answer is true only if some positive quantity was matched — with
+// every quantity zero it cannot answer true.
+func checkMatcherFlag(w *World, r *Report, tm *Terms, m *ssa.Function) {
+	if m == nil || matcherFlagDone[m] {
+		return
+	}
+	matcherFlagDone[m] = true
+	var bad []string
+	for _, o := range NewExplorer(w, tm, &zeroQtyRule{}).Run(m, 0) {
+		if o.Kind != ExitReturn || len(o.Rets) != 2 {
+			continue
+		}
+		if o.Rets[1].K != avFalse {
+			bad = append(bad, fmt.Sprintf("%s returns matched=%s", w.instrPos(o.Instr), o.Rets[1]))
+		}
+	}
+	r.Check(len(bad) == 0, "PUB-NOSALE", fnName(m)+":matched-needs-a-positive-quantity", w.pos(m.Pos()),
+		"with every matched quantity zero the matcher answers matched=false",
+		"with every quantity zero (every bid converts to zero coins at the probed price) "+strings.Join(dedupe(bad), "; ")+": the search keeps that probe and an auction that sold nothing publishes its price")
+}
+
+var matcherFlagDone = map[*ssa.Function]bool{}
+
 // checkNoSale: the clearing price is published from the kept matching result. A probe for which the matcher reports
 // "nothing matched" must not be kept, otherwise a settlement that sells nothing publishes the probed price.
 func checkNoSale(w *World, r *Report, tm *Terms, tree map[*ssa.Function]bool) {
@@ -410,6 +461,7 @@ func checkNoSale(w *World, r *Report, tm *Terms, tree map[*ssa.Function]bool) {
 							at = append(at, w.instrPos(k))
 						}
 						sort.Strings(at)
+						checkMatcherFlag(w, r, tm, w.calleeBody(&call.Call))
 						r.Check(len(at) == 0, "PUB-NOSALE", fmt.Sprintf("%s:sort.Search#%d", fnName(fn), occurrence(fn, c)), w.instrPos(pin),
 							"when the matcher reports that nothing was matched at the probed price, its result is not kept as the matching result",
 							"the result of a probe that matched nothing is kept at "+strings.Join(dedupe(at), ", ")+": a settlement in which every bid converts to zero coins sells nothing but publishes the probed price as matched price")
@@ -559,7 +611,7 @@ func hasRealUse(v ssa.Value) bool {
 // QRY-FILTER: for list queries that pass a predicate closure to a filtered-paginate helper.
 type filterRule struct {
 	BaseRule
-	reqN   *types.Named
+	reqN  *types.Named
 	set   map[string]bool // the filters that are set in the request; every other string filter is empty
 	match map[string]bool // per set filter: the record's attribute equals it
 }
@@ -658,6 +710,53 @@ func checkQueryFilters(w *World, r *Report, tm *Terms, name string, fn *ssa.Func
 		f := reqS.Field(i)
 		if b, ok := f.Type().Underlying().(*types.Basic); ok && b.Kind() == types.String && f.Exported() {
 			strFilters = append(strFilters, f.Name())
+		}
+	}
+	// a stored address is compared in its canonical spelling: records keep AccAddress.String(), a request may spell the
+	// same account differently (upper-case bech32 parses), so the raw request string must not be what is compared
+	{
+		pfr := tm.EnterClosure(tm.Root(fn), predMC, predCall)
+		isReqRaw := func(t *Term) bool {
+			t = uncell(t)
+			return t.Op == "field" && t.Args[0].V != nil && namedOf(t.Args[0].V.Type()) == reqN
+		}
+		isStoredAddr := func(t *Term) bool {
+			t = uncell(t)
+			if t.Op != "field" || t.Args[0].V == nil {
+				return false
+			}
+			n := namedOf(t.Args[0].V.Type())
+			if n == nil || n == reqN || n.Obj().Pkg() == nil || n.Obj().Pkg().Path() != typesPath {
+				return false
+			}
+			return t.Name == "Bidder" || t.Name == "Auctioneer"
+		}
+		for _, b := range pred.Blocks {
+			for _, in := range b.Instrs {
+				bo, ok := in.(*ssa.BinOp)
+				if !ok || (bo.Op != token.EQL && bo.Op != token.NEQ) {
+					continue
+				}
+				lt, rt := tm.OperandAt(pfr, in, bo.X), tm.OperandAt(pfr, in, bo.Y)
+				var stored, other *Term
+				switch {
+				case isStoredAddr(lt):
+					stored, other = lt, rt
+				case isStoredAddr(rt):
+					stored, other = rt, lt
+				default:
+					continue
+				}
+				raw := false
+				for _, a := range other.Alts() {
+					if isReqRaw(a) {
+						raw = true
+					}
+				}
+				r.Check(!raw, "QRY-FILTER", fmt.Sprintf("%s:%s:canonical-address", name, uncell(stored).Name), w.instrPos(in),
+					fmt.Sprintf("query %s compares the stored %s with the canonical rendering of the requested address", name, uncell(stored).Name),
+					fmt.Sprintf("the stored %s (canonical spelling) is compared with the request's string as typed (%s): another valid spelling of the same account (upper-case bech32) matches nothing", uncell(stored).Name, other.String()))
+			}
 		}
 	}
 	if len(strFilters) > 4 {
